@@ -60,7 +60,7 @@ func TestLexContexts(t *testing.T) {
 	}{
 		{`a="zq";`, 3, StrDouble}, {`a='zq';`, 3, StrSingle}, {"a=`zq`;", 3, Template}, {`a=zq;`, 2, Code},
 		{"// c'\nzq", 6, Code}, {`/* " */zq`, 7, Code}, {`a=/"/;zq`, 6, Code}, {`a=b/c;"zq"`, 7, StrDouble},
-		{"a=`${zq}`", 5, Code}, {"a=`${\"zq\"}`", 6, StrDouble}, {`"a\"zq"`, 4, StrDouble}, {`"//x";zq`, 6, Code},
+		{"a=`${zq}`", 5, Code}, {"a=`${\"zq\"}`", 6, StrDouble}, {`"a\"zq"`, 4, StrDouble}, {`"//x";zq`, 6, Code}, {"'a \\\r\nzq'", 6, StrSingle}, {"\"a \\\nzq\"", 5, StrDouble},
 	}
 	for _, c := range cases {
 		if got := CtxAt(Lex(c.src), c.off); got != c.want {
